@@ -655,7 +655,10 @@ notReserved:
 
 	mxi := MxInterfaces[dataType]
 	if mxi != nil {
+		v.mutex.Lock()
 		mxvar := v.vars[name]
+		v.mutex.Unlock()
+
 		if mxvar != nil && mxvar.IsInterface {
 
 			v.mutex.Lock()
